@@ -5,7 +5,7 @@
    hilbert_curve.rs (Gen/HilbertTables.v). *)
 From Coupe Require Import Lib.Prelude Lib.SFloat Model.Hilbert Gen.HilbertTables
   Proofs.HilbertCurve Proofs.HilbertCert Proofs.HilbertInst Proofs.HilbertEncode2D Proofs.HilbertPdep
-  Proofs.HilbertInterleave Proofs.Hilbert3D Proofs.HilbertSeg Proofs.HilbertSegFactor.
+  Proofs.HilbertInterleave Proofs.Hilbert3D Proofs.HilbertSeg Proofs.HilbertSegFactor Proofs.HilbertChecker.
 From Coq Require Import Floats.SpecFloat.
 Open Scope N_scope.
 
@@ -72,6 +72,31 @@ Print Assumptions C08_hilbert3_dec_enc.
 Print Assumptions C08_hilbert3_enc_dec.
 Print Assumptions C08_hilbert3_continuous.
 Print Assumptions C08_hilbert3_parent.
+
+(* ---- the property text as one record, for an arbitrary indexing g of the
+   order-n grid: in range, injective, onto [0, 2^(Dn)), continuous, parent
+   recurrence.  The proven curves satisfy it at every order from every state;
+   and the per-cell boolean check used on the implementation's outputs returns
+   true for EVERY indexing that satisfies it (so [false] refutes the property). *)
+Theorem C08_hilbert2_curve_ok : forall (n : nat) s, s < 4 ->
+  curve_ok2 (N.of_nat n) (fun c => enc2 n s (fst c) (snd c)) (fun c => enc2 (Nat.pred n) s (fst c) (snd c)).
+Proof. exact hilbert2_curve_ok. Qed.
+Theorem C08_hilbert3_curve_ok : forall (n : nat) s, s < 12 ->
+  curve_ok3 (N.of_nat n) (fun c => let '(x, y, z) := c in enc3 n s x y z)
+            (fun c => let '(x, y, z) := c in enc3 (Nat.pred n) s x y z).
+Proof. exact hilbert3_curve_ok. Qed.
+Theorem C08_check_cell2_sound : forall n g gp x y,
+  curve_ok2 n g gp -> x < 2 ^ n -> y < 2 ^ n ->
+  check_cell 2 n (g (x, y)) (gp (x / 2, y / 2)) (map g (nbrs2 n x y)) = true.
+Proof. exact check_cell2_sound. Qed.
+Theorem C08_check_cell3_sound : forall n g gp x y z,
+  curve_ok3 n g gp -> x < 2 ^ n -> y < 2 ^ n -> z < 2 ^ n ->
+  check_cell 3 n (g (x, y, z)) (gp (x / 2, y / 2, z / 2)) (map g (nbrs3 n x y z)) = true.
+Proof. exact check_cell3_sound. Qed.
+Print Assumptions C08_hilbert2_curve_ok.
+Print Assumptions C08_hilbert3_curve_ok.
+Print Assumptions C08_check_cell2_sound.
+Print Assumptions C08_check_cell3_sound.
 
 (* ---- pdep: the 64-iteration fallback loop deposits the low bits of src at
    the set positions of mask; bit k = mask_k && src_(number of mask bits below k) *)
@@ -148,7 +173,19 @@ Theorem C08_seg_factor_good : forall fuel mn mx order f,
   seg_factor fuel mn mx order = Ok f -> valid64 mn -> valid64 mx ->
   is_finite mn = true -> is_finite mx = true -> good f \/ corner mn mx.
 Proof. exact seg_factor_good. Qed.
+(* the nextafter loop returns for every finite interval (a sufficient fuel exists) *)
+Theorem C08_seg_terminates : forall mn mx order,
+  valid64 mn -> valid64 mx -> is_finite mn = true -> is_finite mx = true ->
+  fle mn mx = true -> order < 64 ->
+  exists fuel0 : nat, forall fuel, (fuel0 <= fuel)%nat -> exists f, seg_factor fuel mn mx order = Ok f.
+Proof. exact seg_factor_terminates. Qed.
+(* the boolean check applied to the implementation's cells *)
+Theorem C08_check_seg_ok : forall order cells,
+  check_seg order cells = true <->
+  Sorted.Sorted N.le cells /\ Forall (fun c => c <= 2 ^ order - 1) cells.
+Proof. exact check_seg_ok. Qed.
 Print Assumptions C08_bits_are_valid_floats.
+Print Assumptions C08_seg_terminates.
 Print Assumptions C08_seg_monotone.
 Print Assumptions C08_seg_range.
 
